@@ -20,6 +20,7 @@ class Summary:
         self.raised = None
         self.store = None
         self.extra_written = {}   # allocations written that are not arguments: label -> alloc
+        self.unwritten = []       # expected outputs that no op of the trace writes (store not run in that case)
 
     def interior(self, name):
         fb = self.full[name]
@@ -44,7 +45,7 @@ def expr_at_cells(cells, box):
     return None
 
 
-def summarize(S, fn, kwargs, extra_arrays=()):
+def summarize(S, fn, kwargs, extra_arrays=(), expect_written=()):
     """run fn(**kwargs) and summarise.  Arrays among kwargs (and extra_arrays, e.g. closure-owned
     buffers) start with arbitrary symbolic contents."""
     sm = Summary()
@@ -55,6 +56,23 @@ def summarize(S, fn, kwargs, extra_arrays=()):
     tr, pr, raised = S.trace_call(fn, **kwargs)
     sm.trace, sm.raised = tr, raised
     sm.problems = list(pr)
+    if expect_written and raised is None:
+        # cheap structural pre-check before any symbolic execution: every documented output component is written by some op
+        from .driver import written_views, component_written
+        import re as _re
+        views = written_views(tr)
+        for name in expect_written:
+            m = _re.fullmatch(r"([A-Za-z_][A-Za-z_0-9]*)((?:\[\d+\])*)(?:\.(?:real|imag))?", name)
+            if m is None or m.group(1) not in arrs:
+                continue
+            comp = tuple(int(x) for x in _re.findall(r"\[(\d+)\]", m.group(2)))
+            # (a kernel documented to leave everything alone, e.g. zone width 0, writes nothing at all: only a component that
+            # is skipped while a sibling component of the same array is written contradicts "component by component")
+            aid = arrs[m.group(1)].alloc.id
+            if comp and not component_written(views, aid, comp) and any(v.alloc.id == aid for v in views):
+                sm.unwritten.append(name)
+        if sm.unwritten:
+            return sm
     havoc = {a.alloc.id for a in arrs.values()} | written_allocs(tr)
     st = Store(havoc=havoc)
     try:
